@@ -47,12 +47,12 @@ Proof.
   induction a as [|x a IH]; intros [|y b] H; simpl in H; try discriminate; auto.
   apply andb_prop in H. destruct H as [H1 H2]. apply Z.eqb_eq in H1. f_equal; auto.
 Qed.
-Theorem gn_check_sound : forall i g, gn_check i = Some g ->
+Theorem gn_check_sound : forall ag i g, gn_check ag i = Some g ->
   g = gn_groups i /\ length (gn_input i) = 4%nat /\ gn_adjusted i = Some [0; g; -1]%Z /\ gn_original i = Some (gn_input i)
   /\ gn_norm_weight_ones i = true /\ gn_norm_bias_zeros i = true
   /\ length (gn_weight_full i) = 3%nat /\ all_ones (tl (gn_weight_full i)) = true.
 Proof.
-  intros i g. unfold gn_check.
+  intros ag i g. unfold gn_check.
   match goal with |- (if ?c then _ else _) = _ -> _ => destruct c eqn:E; [|discriminate] end.
   intro H; inversion H; subst.
   repeat (apply andb_prop in E; destruct E as [E ?]).
@@ -64,8 +64,30 @@ Proof.
 Qed.
 (* NOT ensured: that weight_full / bias_full have C elements.  [1,1,1] factors broadcast in the pattern but the fused
    node then receives a gamma of length 1 *)
-Theorem gn_check_affine_refuted : exists i g, gn_check i = Some g /\ gn_affine_ok i = false.
+Theorem gn_check_affine_refuted : exists i g, gn_check false i = Some g /\ gn_affine_ok i = false /\ gn_check true i = None.
 Proof.
   exists (mk_gn_in true true 2 [1; 4; 2; 2]%Z [1; 1; 1]%Z [1; 1; 1]%Z (Some [0; 2; -1]%Z) (Some [1; 4; 2; 2]%Z)), 2%Z.
-  split; vm_compute; reflexivity.
+  repeat split; vm_compute; reflexivity.
 Qed.
+
+(* with the repair (affine_guard = true) an accepted instance has one gamma and one beta per channel: what the fused node needs *)
+Lemma all_ones_prod : forall l, all_ones l = true -> fold_right Z.mul 1%Z l = 1%Z.
+Proof.
+  induction l as [|x l IH]; simpl; auto. intro H. apply andb_prop in H. destruct H as [H1 H2].
+  apply Z.eqb_eq in H1. subst. rewrite IH by auto. reflexivity.
+Qed.
+Theorem gn_check_affine_sufficient : forall i g, gn_check true i = Some g -> gn_affine_ok i = true.
+Proof.
+  intros i g H. pose proof (gn_check_sound _ _ _ H) as (_ & L4 & _ & _ & _ & _ & _ & _).
+  unfold gn_check in H.
+  match type of H with (if ?c then _ else _) = _ => destruct c eqn:E; [|discriminate] end.
+  repeat (apply andb_prop in E; destruct E as [E ?]).
+  simpl in E. unfold gn_affine_ok.
+  destruct (gn_input i) as [|n [|c [|hh [|ww [|]]]]]; simpl in L4; try discriminate.
+  destruct (gn_weight_full i) as [|w0 wt]; [discriminate|]. destruct (gn_bias_full i) as [|b0 bt]; [discriminate|].
+  apply andb_prop in E. destruct E as [E1 E2]. apply Z.eqb_eq in E1, E2. subst.
+  simpl in *. rewrite !all_ones_prod by assumption. rewrite !Z.mul_1_r, !Z.eqb_refl. reflexivity.
+Qed.
+Example gn_check_affine_fires :
+  gn_check true (mk_gn_in true true 2 [1; 4; 2; 2]%Z [4; 1; 1]%Z [4; 1; 1]%Z (Some [0; 2; -1]%Z) (Some [1; 4; 2; 2]%Z)) = Some 2%Z.
+Proof. vm_compute. reflexivity. Qed.
